@@ -80,6 +80,11 @@ def add_extras(rnd, spec, site):
         ('=IF({f}>0,1,2)', []),
         ('={f}&"x"', []),
         ('=(1/0)+{f}', []),
+        # functions that look at errors: what fails behind them still fails
+        ('=IFERROR({f},-1)', []),
+        ('=IFERROR(SUM({f},1),0)+1', []),
+        ('=IF(ISERROR({f}),5,{f})', []),
+        ('=IFNA({f},7)', []),
     ]
     row = 30
     consts = [a for a in dag.constants() if a not in spec.get('pinned', ())]
